@@ -183,3 +183,190 @@ Theorem trim_space_idem : forall s, trim_space (trim_space s) = trim_space s.
 Proof.
   intros s. destruct (trim_space_spec s) as (l & r & _ & _ & _ & N1 & N2). apply trim_space_fix; assumption.
 Qed.
+
+(* ---------- the decomposition is unique: the blank runes form a prefix-free code whose non-initial bytes never start a rune ---------- *)
+
+(* first bytes of blank runes *)
+Definition start_byte (c : byte) : bool :=
+  is_space c || N.eqb (b2n c) 194 || N.eqb (b2n c) 225 || N.eqb (b2n c) 226 || N.eqb (b2n c) 227.
+
+Lemma blank_rune_start : forall r, blank_rune r -> match r with c :: _ => start_byte c = true | [] => False end.
+Proof.
+  intros r H. destruct H as [c Hc|a b Hab|a b c Habc]; unfold start_byte.
+  - rewrite Hc. reflexivity.
+  - unfold space2 in Hab. apply andb_prop in Hab. destruct Hab as [Ha _]. rewrite Ha. rewrite !orb_true_r. reflexivity.
+  - unfold space3 in Habc. repeat (apply orb_prop in Habc; destruct Habc as [Habc|Habc]);
+      repeat (apply andb_prop in Habc; destruct Habc as [Habc ?]); rewrite Habc; rewrite ?orb_true_r; reflexivity.
+Qed.
+
+Lemma blanks_start : forall s, blanks s -> match s with c :: _ => start_byte c = true | [] => True end.
+Proof.
+  intros s H. destruct H as [|r s Hr Hs]; [exact I|]. apply blank_rune_start in Hr. destruct r as [|c r]; [contradiction|]. exact Hr.
+Qed.
+
+(* non-initial bytes of blank runes are not start bytes *)
+Lemma space2_tail : forall a b, space2 (b2n a) (b2n b) = true -> start_byte b = false.
+Proof.
+  intros a b H. unfold space2 in H. apply andb_prop in H. destruct H as [_ H]. unfold start_byte, is_space.
+  apply orb_prop in H. destruct H as [H|H]; apply N.eqb_eq in H; destruct b; vm_compute in H; try discriminate H; reflexivity.
+Qed.
+
+Lemma space3_tail : forall a b c, space3 (b2n a) (b2n b) (b2n c) = true -> start_byte b = false /\ start_byte c = false.
+Proof.
+  intros a b c H. unfold space3 in H.
+  assert (Hb : N.eqb (b2n b) 154 || N.eqb (b2n b) 128 || N.eqb (b2n b) 129 = true).
+  { repeat (apply orb_prop in H; destruct H as [H|H]); repeat (apply andb_prop in H; destruct H as [H ?]);
+      match goal with E : N.eqb (b2n b) _ = true |- _ => rewrite E end; rewrite ?orb_true_r; reflexivity. }
+  assert (Hc : N.leb 128 (b2n c) && N.leb (b2n c) 175 = true).
+  { repeat (apply orb_prop in H; destruct H as [H|H]); repeat (apply andb_prop in H; destruct H as [H ?]);
+      repeat match goal with E : _ || _ = true |- _ => apply orb_prop in E; destruct E as [E|E] end;
+      repeat match goal with E : _ && _ = true |- _ => apply andb_prop in E; destruct E as [E ?] end;
+      repeat match goal with E : N.eqb _ _ = true |- _ => apply N.eqb_eq in E end;
+      repeat match goal with E : N.leb _ _ = true |- _ => apply N.leb_le in E end;
+      apply andb_true_intro; split; apply N.leb_le; lia. }
+  split.
+  - destruct b; vm_compute in Hb; try discriminate Hb; reflexivity.
+  - destruct c; vm_compute in Hc; try discriminate Hc; reflexivity.
+Qed.
+
+Lemma is_space_not_lead : forall a, is_space a = true ->
+  N.eqb (b2n a) 194 = false /\ N.eqb (b2n a) 225 = false /\ N.eqb (b2n a) 226 = false /\ N.eqb (b2n a) 227 = false.
+Proof. intros a H. destruct a; vm_compute in H; try discriminate H; vm_compute; auto. Qed.
+
+Lemma space2_lead : forall a b, space2 a b = true -> N.eqb a 194 = true.
+Proof. intros a b H. unfold space2 in H. apply andb_prop in H. tauto. Qed.
+
+Lemma space3_lead : forall a b c, space3 a b c = true -> N.eqb a 225 || N.eqb a 226 || N.eqb a 227 = true.
+Proof.
+  intros a b c H. unfold space3 in H. repeat (apply orb_prop in H; destruct H as [H|H]); repeat (apply andb_prop in H; destruct H as [H ?]);
+    rewrite H; rewrite ?orb_true_r; reflexivity.
+Qed.
+
+(* prefix-free *)
+Lemma blank_rune_prefix_free : forall w w' p q, blank_rune w -> blank_rune w' -> w ++ p = w' ++ q -> w = w'.
+Proof.
+  intros w w' p q Hw Hw' E.
+  destruct Hw as [c Hc|a b Hab|a b c Habc]; destruct Hw' as [c' Hc'|a' b' Hab'|a' b' c' Habc']; cbn [app] in E;
+    try (injection E as -> E); try (injection E as -> E); try (injection E as -> E); try (subst; reflexivity).
+  - apply is_space_not_lead in Hc. apply space2_lead in Hab'. destruct Hc as (H1 & _). congruence.
+  - apply is_space_not_lead in Hc. apply space3_lead in Habc'. destruct Hc as (_ & H1 & H2 & H3). rewrite H1, H2, H3 in Habc'. discriminate.
+  - apply is_space_not_lead in Hc'. apply space2_lead in Hab. destruct Hc' as (H1 & _). congruence.
+  - apply space2_lead in Hab. apply space3_lead in Habc'. apply N.eqb_eq in Hab. rewrite Hab in Habc'. vm_compute in Habc'. discriminate.
+  - apply is_space_not_lead in Hc'. apply space3_lead in Habc. destruct Hc' as (_ & H1 & H2 & H3). rewrite H1, H2, H3 in Habc. discriminate.
+  - apply space2_lead in Hab'. apply space3_lead in Habc. apply N.eqb_eq in Hab'. rewrite Hab' in Habc. vm_compute in Habc. discriminate.
+Qed.
+
+Lemma blanks_prefix_align : forall a, blanks a -> forall b x y, blanks b -> a ++ x = b ++ y ->
+  (exists c, blanks c /\ b = a ++ c) \/ (exists c, blanks c /\ a = b ++ c).
+Proof.
+  intros a Ha. induction Ha as [|w a0 Hw Ha0 IH]; intros b x y Hb E.
+  - left. exists b. split; [exact Hb|reflexivity].
+  - destruct Hb as [|w' b0 Hw' Hb0].
+    + right. exists (w ++ a0). split; [constructor; assumption|reflexivity].
+    + rewrite <- !app_assoc in E. assert (W : w = w') by (eapply blank_rune_prefix_free; eassumption). subst w'.
+      apply app_inv_head in E. destruct (IH b0 x y Hb0 E) as [(c & Hc & Ec)|(c & Hc & Ec)].
+      * left. exists c. split; [exact Hc|]. rewrite Ec, app_assoc. reflexivity.
+      * right. exists c. split; [exact Hc|]. rewrite Ec, app_assoc. reflexivity.
+Qed.
+
+(* what follows a run of blank runes inside a run of blank runes is a run of blank runes *)
+Lemma blanks_rest : forall a x, blanks (a ++ x) -> blanks a -> blanks x.
+Proof.
+  intros a x Hax Ha. destruct (blanks_prefix_align a Ha (a ++ x) x [] Hax) as [(c & Hc & Ec)|(c & Hc & Ec)].
+  - rewrite app_nil_r. reflexivity.
+  - apply app_inv_head in Ec. subst x. exact Hc.
+  - rewrite <- app_assoc in Ec. rewrite <- (app_nil_r a) in Ec at 1. apply app_inv_head in Ec.
+    symmetry in Ec. apply app_eq_nil in Ec. destruct Ec as [-> _]. constructor.
+Qed.
+
+(* a blank rune cannot begin inside a non-empty piece that does not start with one and be completed by blank runes *)
+Lemma rune_in_front : forall w m r rest, blank_rune w -> m <> [] -> ~ starts_blank m -> blanks r -> m ++ r = w ++ rest -> False.
+Proof.
+  intros w m r rest Hw Hm Ns Hr E. destruct m as [|x m1]; [congruence|].
+  destruct Hw as [c Hc|a b Hab|a b c Habc]; cbn [app] in E; injection E as -> E.
+  - apply Ns. exists [c], m1. split; [apply br1; exact Hc|reflexivity].
+  - destruct m1 as [|y m2]; cbn [app] in E.
+    + subst r. apply blanks_start in Hr. apply space2_tail in Hab. congruence.
+    + injection E as -> E. apply Ns. exists [a; b], m2. split; [apply br2; exact Hab|reflexivity].
+  - destruct m1 as [|y m2]; cbn [app] in E.
+    + subst r. apply blanks_start in Hr. apply space3_tail in Habc. destruct Habc as [H1 _]. congruence.
+    + injection E as -> E. destruct m2 as [|z m3]; cbn [app] in E.
+      * subst r. apply blanks_start in Hr. apply space3_tail in Habc. destruct Habc as [_ H2]. congruence.
+      * injection E as -> E. apply Ns. exists [a; b; c], m3. split; [apply br3; exact Habc|reflexivity].
+Qed.
+
+(* a run of blank runes that ends with a run of blank runes starts with one *)
+Lemma blanks_split : forall s, blanks s -> forall d r', s = d ++ r' -> blanks r' -> blanks d.
+Proof.
+  intros s Hs. induction Hs as [|w s0 Hw Hs0 IH]; intros d r' E Hr'.
+  - symmetry in E. apply app_eq_nil in E. destruct E as [-> _]. constructor.
+  - apply app_eq_app in E. destruct E as (l & [[E1 E2]|[E1 E2]]).
+    + (* w = d ++ l, r' = l ++ s0 *)
+      destruct l as [|x l1]. { rewrite app_nil_r in E1. subst d. apply blanks_one. exact Hw. }
+      destruct d as [|y d1]; [constructor|]. exfalso. subst r'. apply blanks_start in Hr'. cbn [app] in Hr'.
+      destruct Hw as [c Hc|a b Hab|a b c Habc]; cbn [app] in E1.
+      * injection E1 as _ E1. destruct d1; discriminate E1.
+      * injection E1 as _ E1. destruct d1 as [|? d2]; cbn [app] in E1; [|injection E1 as _ E1; destruct d2; discriminate E1].
+        injection E1 as -> _. apply space2_tail in Hab. congruence.
+      * injection E1 as _ E1. apply space3_tail in Habc. destruct Habc as [H1 H2]. destruct d1 as [|? d2]; cbn [app] in E1.
+        -- injection E1 as -> _. congruence.
+        -- injection E1 as _ E1. destruct d2 as [|? d3]; cbn [app] in E1; [|injection E1 as _ E1; destruct d3; discriminate E1].
+           injection E1 as -> _. congruence.
+    + (* d = w ++ l, s0 = l ++ r' *)
+      subst d. constructor; [exact Hw|]. apply (IH l r' E2 Hr').
+Qed.
+
+Lemma blanks_end : forall l, blanks l -> l <> [] -> ends_blank l.
+Proof.
+  intros l Hl. induction Hl as [|w s Hw Hs IH]; intros Hn; [congruence|].
+  destruct s as [|x s1].
+  - exists [], w. split; [exact Hw|rewrite app_nil_r; reflexivity].
+  - destruct IH as (t & r & Hr & E); [discriminate|]. exists (w ++ t), r. split; [exact Hr|]. rewrite E, app_assoc. reflexivity.
+Qed.
+
+Lemma uniq_same_left : forall m r m' r', m ++ r = m' ++ r' -> blanks r -> blanks r' -> ~ ends_blank m -> ~ ends_blank m' -> m = m'.
+Proof.
+  intros m r m' r' E Hr Hr' N N'. apply app_eq_app in E. destruct E as (l & [[E1 E2]|[E1 E2]]).
+  - (* m = m' ++ l, r' = l ++ r *)
+    assert (Hl : blanks l) by (apply (blanks_split r' Hr' l r E2 Hr)).
+    destruct l as [|x l1]; [rewrite app_nil_r in E1; exact E1|]. exfalso. apply N.
+    destruct (blanks_end _ Hl) as (t & w & Hw & Ew); [discriminate|]. exists (m' ++ t), w. split; [exact Hw|].
+    rewrite E1, Ew, app_assoc. reflexivity.
+  - assert (Hl : blanks l) by (apply (blanks_split r Hr l r' E2 Hr')).
+    destruct l as [|x l1]; [rewrite app_nil_r in E1; symmetry; exact E1|]. exfalso. apply N'.
+    destruct (blanks_end _ Hl) as (t & w & Hw & Ew); [discriminate|]. exists (m ++ t), w. split; [exact Hw|].
+    rewrite E1, Ew, app_assoc. reflexivity.
+Qed.
+
+Lemma uniq_aux : forall c, blanks c -> forall m r m' r', m ++ r = c ++ m' ++ r' -> blanks r -> blanks r' ->
+  ~ starts_blank m -> ~ starts_blank m' -> ~ ends_blank m -> ~ ends_blank m' -> m = m'.
+Proof.
+  intros c Hc m r m' r' E Hr Hr' S S' N N'. destruct Hc as [|w c0 Hw Hc0].
+  - cbn [app] in E. eapply uniq_same_left; eassumption.
+  - destruct m as [|x m1].
+    + (* everything to the right of l is blank: m' must be empty too *)
+      cbn [app] in E. subst r. rewrite <- app_assoc in Hr.
+      assert (H1 : blanks (c0 ++ m' ++ r')) by (apply (blanks_rest w); [exact Hr|apply blanks_one; exact Hw]).
+      assert (H2 : blanks (m' ++ r')) by (apply (blanks_rest c0); assumption).
+      destruct m' as [|y m2]; [reflexivity|]. exfalso.
+      remember ((y :: m2) ++ r') as s eqn:Es. destruct H2 as [|w2 s2 Hw2 Hs2]; [discriminate Es|].
+      apply (rune_in_front w2 (y :: m2) r' s2 Hw2); [discriminate|exact S'|exact Hr'|symmetry; exact Es].
+    + exfalso. rewrite <- app_assoc in E. apply (rune_in_front w (x :: m1) r (c0 ++ m' ++ r') Hw); [discriminate|exact S|exact Hr|exact E].
+Qed.
+
+(* strings.TrimSpace is characterised by trim_space_spec: the middle piece of such a decomposition is unique *)
+Theorem trim_decomposition_unique : forall l m r l' m' r',
+  l ++ m ++ r = l' ++ m' ++ r' -> blanks l -> blanks r -> blanks l' -> blanks r' ->
+  ~ starts_blank m -> ~ ends_blank m -> ~ starts_blank m' -> ~ ends_blank m' -> m = m'.
+Proof.
+  intros l m r l' m' r' E Hl Hr Hl' Hr' S N S' N'.
+  destruct (blanks_prefix_align l Hl l' (m ++ r) (m' ++ r') Hl' E) as [(c & Hc & Ec)|(c & Hc & Ec)].
+  - subst l'. rewrite <- app_assoc in E. apply app_inv_head in E. eapply (uniq_aux c Hc m r m' r'); eassumption.
+  - subst l. rewrite <- app_assoc in E. apply app_inv_head in E. symmetry. symmetry in E. eapply (uniq_aux c Hc m' r' m r); eassumption.
+Qed.
+
+Corollary trim_space_unique : forall s l m r, s = l ++ m ++ r -> blanks l -> blanks r -> ~ starts_blank m -> ~ ends_blank m -> m = trim_space s.
+Proof.
+  intros s l m r E Hl Hr S N. destruct (trim_space_spec s) as (l' & r' & E' & Hl' & Hr' & S' & N').
+  eapply (trim_decomposition_unique l m r l' (trim_space s) r'); try eassumption. rewrite <- E. exact E'.
+Qed.
